@@ -245,7 +245,7 @@ class Comb(Family):
         for n in range(-2, 14):
             for k in range(-2, 16):
                 yield {"n": n, "k": k}
-        for _ in range(300 if tier == "quick" else 3000):
+        for _ in range(300 if tier == "quick" else 1500):
             n = rng.randrange(0, 400)
             yield {"n": n, "k": rng.randrange(0, n + 1)}
 
@@ -284,12 +284,12 @@ class CombRank(Family):
                 yield {"n": n, "c": None, "k": k, "r": math.comb(n, k)}      # out of range
                 yield {"n": n, "c": None, "k": k, "r": math.comb(n, k) + 3}
                 yield {"n": n, "c": None, "k": k, "r": -1}                    # negative: accepted by the helper
-        for _ in range(200 if tier == "quick" else 2000):
+        for _ in range(200 if tier == "quick" else 1000):
             n = rng.randrange(8, 40)
             k = rng.randrange(0, n + 1)
             yield {"n": n, "c": sorted(rng.sample(range(n), k)), "r": None}
         # Combination.rank over arbitrary (sorted, distinct) element lists
-        for _ in range(150 if tier == "quick" else 1500):
+        for _ in range(150 if tier == "quick" else 700):
             n = rng.randrange(1, 12)
             els = sorted(rng.sample(range(-5, 40), n))
             k = rng.randrange(0, n + 1)
@@ -386,12 +386,12 @@ class CombWR(Family):
                 # beyond the range: the helper does not reject (documented in the model)
                 for extra in (0, 1, 5):
                     yield {"n": n, "k": k, "c": None, "r": total + extra}
-        for _ in range(200 if tier == "quick" else 3000):
+        for _ in range(200 if tier == "quick" else 1500):
             n = rng.randrange(1, 60)
             k = rng.randrange(1, 9)
             c = sorted(rng.randrange(n) for _ in range(k))
             yield {"n": n, "k": k, "c": c, "r": None}
-        for _ in range(60 if tier == "quick" else 600):       # big-integer n (num_shapes is huge)
+        for _ in range(60 if tier == "quick" else 300):       # big-integer n (num_shapes is huge)
             n = rng.randrange(1, 10 ** rng.randrange(3, 30))
             k = rng.randrange(1, 5)
             # with_replacement_rank loops c[0] times, with_replacement_unrank as well
@@ -467,7 +467,7 @@ class Parts(Family):
             yield {"kind": "full", "n": n}
         for n in range(15, 31 if tier == "quick" else 41):
             yield {"kind": "sample", "n": n, "idx": sorted(rng.randrange(0, 200000) for _ in range(6))}
-        for _ in range(80 if tier == "quick" else 800):
+        for _ in range(80 if tier == "quick" else 300):
             m = rng.randrange(0, 10)
             yield {"kind": "group", "vals": [rng.randrange(0, 4) for _ in range(m)]}
 
@@ -728,9 +728,11 @@ class TreeRankUnrank(Family):
                 N = c.num_labellings(n, s)
                 # quick: every label rank for n <= 5, every third one (random phase, plus the
                 # first, the last and the first rejected rank) for n = 6; thorough: all
-                phase = rng.randrange(3)
+                phase = rng.randrange(3)     # thorough, n = 7: every fourth
                 for l in range(N + 1):       # l = N: out of range, must be rejected
                     if tier == "quick" and n == 6 and l % 3 != phase and l not in (0, N - 1, N):
+                        continue
+                    if tier != "quick" and n == 7 and l % 4 != phase and l not in (0, N - 1, N):
                         continue
                     yield {"n": n, "s": s, "l": l, "N": N}
         if tier == "quick":
@@ -966,7 +968,7 @@ class TreeBig(Family):
     coq_timeout = 1200
 
     def generate(self, rng, tier):
-        for _ in range(72 if tier == "quick" else 600):
+        for _ in range(72 if tier == "quick" else 400):
             n = rng.randrange(8, 17)
             S = bf_num_shapes_fast(n)
             s = rng.choice([0, S - 1, rng.randrange(S), rng.randrange(S), rng.randrange(S)])
